@@ -105,6 +105,7 @@ def run(facts):
         cands.append((b, L))
     own = {b.id: L for b, L in cands}
     n = 0
+    verdicts = {}
     for b, L in cands:
         n += 1
         bad, n_paths = judge_body(facts, b, L, own)
@@ -115,7 +116,18 @@ def run(facts):
                 if not bad2 and n2:
                     bad, n_paths = None, n2
                     break
+        verdicts[b.did] = (b, bad, n_paths)
+    from .inline import callers_of
+    cand_dids = set(verdicts)
+    for did, (b, bad, n_paths) in verdicts.items():
         key = "%s|returned Vec has the view's length" % b.id
+        if bad and str(b.vis).startswith("Restricted"):
+            # a private helper with more than one (pointer, usize) pair (`copy_back_to_vec(buf, cap, ptr, len)`): which pair is the view is only
+            # known to its callers - if every caller is a conversion of this rule's own set and is fine with the helper spliced in, that decides
+            cs = [c for c in callers_of(facts, did) if not facts.is_test(c)]
+            if cs and all(c.did in cand_dids and verdicts[c.did][1] is None for c in cs):
+                res.ok(key, b.loc(), "judged in its callers (%s), helper spliced in" % ", ".join(sorted(c.id.rsplit("::", 1)[-1] for c in cs)), nontrivial=True)
+                continue
         if bad:
             res.bad(key, b.loc(), "on the path bb%s %s: the caller would see a Vec whose length is not the handle's len()" % (
                 "->bb".join(str(x) for x in bad[0]), bad[1]))
